@@ -498,6 +498,86 @@ func c17MultiField(c *vk.Ctx, i int) {
 	c.DistinctHash(vk.Hash64(fmt.Sprintf("mf|%d|%d|%d|%v|%d", L, tf1, tf2, composite, len(docs))))
 }
 
+// c17WithDeletions: the laws on an index whose segments carry pending deletions, where the scored field is
+// sparse (most documents of the segment - and most of the deleted ones - do not have it): the statistics
+// fed to the similarity must stay sane (document counts of a field are not the segment's deletions).
+func c17WithDeletions(c *vk.Ctx, i int) {
+	r := rand.New(rand.NewSource(vk.SubSeed(c.Seed, fmt.Sprintf("c17-del-%d", i))))
+	L := 4 + r.Intn(8)
+	tf1 := 1 + r.Intn(L-2)
+	tf2 := tf1 + 1
+	mk := func(id string, t, u []string) *model.Doc {
+		d := &model.Doc{ID: id, V: id, Text: map[string]string{}}
+		if t != nil {
+			d.Text["t"] = strings.Join(t, " ")
+		}
+		if u != nil {
+			d.Text["u"] = strings.Join(u, " ")
+		}
+		return d
+	}
+	b1 := &model.Batch{}
+	add := func(b *model.Batch, d *model.Doc) { b.Ops = append(b.Ops, model.Op{Kind: "update", ID: d.ID, Doc: d}) }
+	add(b1, mk("tf-lo", append(rep("a", tf1), rep("x", L-tf1)...), nil))
+	add(b1, mk("tf-hi", append(rep("a", tf2), rep("x", L-tf2)...), nil))
+	add(b1, mk("rar", append(append(rep("r", 2), rep("f", 2)...), rep("x", 3)...), nil))
+	nf := 2 + r.Intn(4)
+	for k := 0; k < nf; k++ {
+		add(b1, mk(fmt.Sprintf("fill%d", k), append(rep("f", 1+r.Intn(2)), rep("y", r.Intn(4))...), nil))
+	}
+	nu := 8 + r.Intn(20) // documents WITHOUT the scored field, in the same segment
+	for k := 0; k < nu; k++ {
+		add(b1, mk(fmt.Sprintf("other%d", k), nil, []string{"z", "q"}))
+	}
+	b2 := &model.Batch{} // most of them are deleted or rewritten later: pending deletions in the first segment
+	for k := 0; k < nu; k++ {
+		switch r.Intn(3) {
+		case 0:
+			b2.Ops = append(b2.Ops, model.Op{Kind: "delete", ID: fmt.Sprintf("other%d", k)})
+		case 1:
+			add(b2, mk(fmt.Sprintf("other%d", k), nil, []string{"z"}))
+		}
+	}
+	w, err := bluge.OpenWriter(bx.NoMerge(bluge.InMemoryOnlyConfig()))
+	if err != nil {
+		return
+	}
+	defer w.Close()
+	if w.Batch(b1.ToBluge()) != nil || w.Batch(b2.ToBluge()) != nil {
+		return
+	}
+	rd, err := w.Reader()
+	if err != nil {
+		return
+	}
+	defer rd.Close()
+	wit := map[string]interface{}{"L": L, "tf1": tf1, "tf2": tf2, "docs_without_the_field": nu, "fillers": nf, "second_batch": b2}
+	get := func(term string) map[string]float64 {
+		s, _, err := scoresOf(rd, bluge.NewTermQuery(term).SetField("t"), false)
+		if err != nil {
+			c.Violate("harness-search", err.Error(), wit)
+		}
+		return s
+	}
+	sa, sr, sf := get("a"), get("r"), get("f")
+	c.Eval(3)
+	for _, m := range []map[string]float64{sa, sr, sf} {
+		for id, s := range m {
+			if math.IsNaN(s) || math.IsInf(s, 0) || s <= 0 {
+				c.Violate("score-not-finite-positive:pending-deletions", fmt.Sprintf("doc %s scores %v on a sparse field in a segment with pending deletions", id, s), wit)
+			}
+		}
+	}
+	if !(sa["tf-hi"] > sa["tf-lo"]) {
+		c.Violate("law-tf:pending-deletions", fmt.Sprintf("same length %d: tf %d scores %v, tf %d scores %v", L, tf1, sa["tf-lo"], tf2, sa["tf-hi"]), wit)
+	}
+	if !(sr["rar"] > sf["rar"]) {
+		c.Violate("law-rarity:pending-deletions", fmt.Sprintf("same tf and length: rare term scores %v, frequent term (%d more docs) scores %v", sr["rar"], nf, sf["rar"]), wit)
+	}
+	c.Event("corpora_with_pending_deletions_and_sparse_field", 1)
+	c.DistinctHash(vk.Hash64(fmt.Sprintf("del|%d|%d|%d|%d", L, tf1, nu, nf)))
+}
+
 // boost linearity per public query type; compound = boost * sum of parts; explanations over query trees
 func c17Queries(c *vk.Ctx, i int) {
 	r := rand.New(rand.NewSource(vk.SubSeed(c.Seed, fmt.Sprintf("c17-q-%d", i))))
@@ -685,6 +765,7 @@ func runC17(c *vk.Ctx) {
 				case i < nQ+nMeta:
 					c17Metamorphic(c, i-nQ)
 					c17MultiField(c, i-nQ)
+					c17WithDeletions(c, i-nQ)
 				default:
 					return
 				}
